@@ -257,3 +257,17 @@ Proof.
   - destruct t; [cbn in E; congruence | discriminate].
   - cbn [last]. exact IH.
 Qed.
+
+Lemma app_inj_len {A} (a b c d : list A) : lenN a = lenN c -> a ++ b = c ++ d -> a = c /\ b = d.
+Proof.
+  intros Hl H. assert (Hn : length a = length c) by (unfold lenN in Hl; lia).
+  revert c Hl Hn H. induction a as [|x a IH]; intros c Hl Hn H.
+  - destruct c; [cbn in H; auto|discriminate].
+  - destruct c as [|y c]; [discriminate|]. cbn [app] in H. injection H as -> H.
+    destruct (IH c) as [-> ->]; auto. rewrite !lenN_cons in Hl. lia.
+Qed.
+
+Lemma takeN_app_len {A} n (a b : list A) : lenN a = n -> takeN n (a ++ b) = a.
+Proof. intros <-. apply takeN_app. Qed.
+Lemma dropN_app_len {A} n (a b : list A) : lenN a = n -> dropN n (a ++ b) = b.
+Proof. intros <-. apply dropN_app. Qed.
